@@ -77,6 +77,13 @@ REACH = {
     "union-case-in-generic-argument": "Sample: !record\n  fields:\n    value: {T}\n\nTagged<X>: !record\n  fields:\n    v: X\n\nP: !protocol\n  sequence:\n    s: !generic {name: Tagged, args: [[int8, Sample]]}\n",
     "field-of-field": "Sample: !record\n  fields:\n    value: {T}\n\nOuter: !record\n  fields:\n    o: Sample*\n\nP: !protocol\n  sequence:\n    s: Outer?\n",
     "alias-chain": "Sample: {T}\n\nA1: Sample\n\nA2: A1*\n\nP: !protocol\n  sequence:\n    s: A2\n",
+    # the same kind of difference inside DOCUMENTED definitions (comments are stripped from the schema by a rewrite of the model,
+    # which must not lose anything else)
+    "documented-enum-base": "# what a sample is\nSample: !enum\n  base: {T}\n  values:\n    # the first one\n    p: 1\n    # the second one\n    q: 2\n\nP: !protocol\n  sequence:\n    s: Sample\n",
+    "documented-flags-base": "# what a sample is\nSample: !flags\n  base: {T}\n  values:\n    # the first one\n    - p\n    - q\n\nP: !protocol\n  sequence:\n    s: Sample*\n",
+    "documented-record-field": "# what a sample is\nSample: !record\n  fields:\n    # the value\n    value: {T}\n    # more\n    n: int8\n\nP: !protocol\n  sequence:\n    # the step\n    s: Sample*\n",
+    "documented-array-items": "Sample: !record\n  fields:\n    # an array\n    arr: !array\n      items: {T}\n      dimensions:\n        # rows\n        x: 2\n        # columns\n        y: 3\n\nP: !protocol\n  sequence:\n    s: Sample\n",
+    "documented-alias": "# an alias\nSample: {T}\n\n# a user\nUser: !record\n  fields:\n    # f\n    f: Sample?\n\nP: !protocol\n  sequence:\n    s: !stream\n      # items\n      items: User\n",
     "enum-as-generic-argument": "Sample: !enum\n  base: {T}\n  values: [p, q]\n\nTagged<X>: !record\n  fields:\n    v: X\n\nP: !protocol\n  sequence:\n    s: Tagged<Sample>\n",
 }
 REACH_DRIVER = """
